@@ -215,3 +215,45 @@ func VerifC20BeginBlock() {
 		}
 	}
 }
+
+// VerifC20BeginBlockMany: more than 200 pending changes with the same due time:
+// exactly 200 are applied in this block, the others stay pending AND scheduled
+// at the same time (to be applied in the following blocks), nothing is lost.
+func VerifC20BeginBlockMany() {
+	n := vh.Bound("consumers", 202)
+	e := newVEnv(1)
+	due := vTimeIn("due")
+	cur, pend := vConcreteInfraction(), vConcreteInfraction()
+	pend.Downtime.JailDuration = 999
+	ids := make([]string, n)
+	for i := 0; i < n; i++ {
+		ids[i] = vh.Sprintf("%d", i)
+		_ = e.k.SetInfractionParameters(e.ctx, ids[i], cur)
+		_ = e.k.SetQueuedInfractionParameters(e.ctx, ids[i], pend)
+		_ = e.k.AddToInfractionUpdateSchedule(e.ctx, ids[i], due)
+	}
+	now := e.ctx.BlockTime()
+	err := e.k.BeginBlockUpdateInfractionParameters(e.ctx)
+	vh.Reach("after-beginblock")
+	vh.Assert(err == nil, "C20.many.no-error")
+	applied, pending := 0, 0
+	for i := 0; i < n; i++ {
+		c, _ := e.k.GetInfractionParameters(e.ctx, ids[i])
+		if c.Downtime.JailDuration == 999 {
+			applied++
+			vh.Assert(!e.k.HasQueuedInfractionParameters(e.ctx, ids[i]), "C20.many.applied-change-no-longer-pending")
+		} else if e.k.HasQueuedInfractionParameters(e.ctx, ids[i]) {
+			pending++
+		}
+	}
+	sched, _ := e.k.GetFromInfractionUpdateSchedule(e.ctx, due)
+	if !due.After(now) {
+		vh.Assert(applied == 200, "C20.many.at-most-200-applied-per-block")
+		vh.Assert(pending == n-200, "C20.many.rest-stays-pending")
+		vh.Assert(len(sched.Ids) == n-200, "C20.many.rest-stays-scheduled-at-its-due-time")
+		rm, _ := e.k.GetConsumersToBeRemoved(e.ctx, due)
+		vh.Assert(len(rm.Ids) == 0, "C20.many.nothing-leaks-into-another-queue")
+	} else {
+		vh.Assert(applied == 0 && pending == n && len(sched.Ids) == n, "C20.many.nothing-applied-before-due-time")
+	}
+}
